@@ -142,6 +142,7 @@ Proof.
   pose proof (merge_validate_no_dump _ _ _ _ _ _ _ V) as DV.
   assert (X : forall k, dumped (vl ++ hints k) = []) by (intros; rewrite dumped_app, DV, dumped_hints; reflexivity).
   destruct (negb (Nat.eqb nerr 0)); [intros _; unfold delivered; simpl; rewrite DV; reflexivity|].
+  destruct (ma_config_err a); [intros _; unfold delivered; simpl; rewrite DV; reflexivity|].
   destruct (merge_loop _ _ _ _ _ _ _ _) as [[[[[st mg] cnt] cons] nh]|u];
     [|intros _; unfold delivered; simpl; rewrite X; reflexivity].
   match goal with |- context [match ?S with LOk _ => _ | LRaise _ => _ end] => destruct S as [[[[st2 m2] c2] nh2]|u] end;
@@ -164,7 +165,7 @@ Definition stdin_waits_m (a : merge_args) (tty : bool) (srcs : list source) : bo
 Lemma merge_output_condense : forall merge2 flow jview estr a tty srcs stdin_src nerr vl n',
   merges_clean merge2 ->
   ma_mode a = CondenseAll ->
-  merge_validate a (List.length srcs) (map s_name srcs) tty = (nerr, vl, n') -> nerr = 0 ->
+  merge_validate a (List.length srcs) (map s_name srcs) tty = (nerr, vl, n') -> nerr = 0 -> ma_config_err a = None ->
   Forall (src_loads estr) srcs ->
   (stdin_waits_m a tty srcs = true -> src_loads estr stdin_src) ->
   ma_backup a && negb (ma_overwrite_exists a) = false ->
@@ -175,8 +176,8 @@ Lemma merge_output_condense : forall merge2 flow jview estr a tty srcs stdin_src
     delivered (cli_merge_main merge2 flow jview estr a tty srcs stdin_src) =
       [(doc_is_json flow a m, [prepared flow jview a (prepared flow jview a m)])].
 Proof.
-  intros merge2 flow jview estr a tty srcs stdin_src nerr vl n' clean Mode V Z F FS BK d rest ALL m.
-  unfold cli_merge_main. rewrite V. subst nerr. simpl negb. cbv iota. rewrite Mode.
+  intros merge2 flow jview estr a tty srcs stdin_src nerr vl n' clean Mode V Z CE F FS BK d rest ALL m.
+  unfold cli_merge_main. rewrite V. subst nerr. simpl negb. cbv iota. rewrite CE, Mode.
   destruct (merge_loop_condense merge2 clean estr srcs [] 0 false 0 F (or_introl eq_refl))
     as (m1 & c1 & E & I1 & C1 & Z1).
   rewrite E. simpl orb. cbv beta iota. simpl Nat.eqb. cbv iota. simpl andb.
